@@ -86,7 +86,7 @@ def _check_fit_result(j, self, result, name):
     why = 'components_ is %s' % type(L).__name__
   elif L.ndim != 2:
     why = 'components_.ndim = %d' % L.ndim
-  elif L.dtype != np.float64:
+  elif L.dtype.kind != 'f':
     why = 'components_.dtype = %s' % L.dtype
   elif not np.all(np.isfinite(L)):
     why = 'components_ not finite'
